@@ -212,8 +212,8 @@ func unitSplit(c *vh.Ctx) {
 			if ln < 0 {
 				ln = 0
 			}
-		case r.Intn(20) == 0 && c.Tier == "thorough":
-			ln = r.Intn(60000)
+		case r.Intn(100) == 0 && c.Tier == "thorough":
+			ln = r.Intn(30000)
 		default:
 			ln = r.Intn(1500)
 		}
